@@ -392,7 +392,8 @@ private:
                 heap_[cur] = std::move(value);
             }
         }
-        // initialize handles_ vector
+        // initialize handles_ vector: forget the handles of previous contents
+        std::fill(handles_.begin(), handles_.end(), not_present());
         handles_.resize(
             std::max(handles_.size(), static_cast<size_t>(max_key) + 1),
             not_present());
